@@ -343,11 +343,7 @@ class NegateExpression(UnaryExpression):
 
     def __str__(self) -> str:
         inner: Union[Optional[MathExpression], str] = self.get_child()
-        binary_types = (
-            AddExpression,
-            SubtractExpression,
-        )
-        if isinstance(inner, binary_types):
+        if _negate_needs_parens(self.get_child()):
             inner = f"({inner})"
         return self.with_color("-{}".format(inner))
 
@@ -670,7 +666,49 @@ class PowerExpression(BinaryExpression):
         return float(np.power(float(one), float(two)))
 
     def __str__(self) -> str:
-        return "{}{}{}".format(self.left, self.with_color(self.name), self.right)
+        left: Union[Optional[MathExpression], str] = self.left
+        right: Union[Optional[MathExpression], str] = self.right
+        # (-x)^2, (x^2)^3 and (2x)^3 need their base grouped, x^(y^z) its exponent
+        if _power_base_needs_parens(self.left):
+            left = f"({left})"
+        if isinstance(self.right, PowerExpression):
+            right = f"({right})"
+        return "{}{}{}".format(left, self.with_color(self.name), right)
+
+
+def _is_compact_product(node: Optional[MathExpression]) -> bool:
+    """True for products that print without an operator, e.g. `4x` and `4x^2`"""
+    if not isinstance(node, MultiplyExpression):
+        return False
+    if not isinstance(node.left, ConstantExpression):
+        return False
+    return isinstance(node.right, VariableExpression) or (
+        isinstance(node.right, PowerExpression)
+        and isinstance(node.right.left, VariableExpression)
+    )
+
+
+def _power_base_needs_parens(base: Optional[MathExpression]) -> bool:
+    """Other binary operators parenthesise themselves under a power"""
+    if isinstance(base, (NegateExpression, PowerExpression)):
+        return True
+    return _is_compact_product(base)
+
+
+def _negate_needs_parens(inner: Optional[MathExpression]) -> bool:
+    """Whether `-{inner}` would be read back as something other than a negation
+    of the whole of `inner`."""
+    if inner is None or isinstance(inner, (VariableExpression, FunctionExpression)):
+        return False
+    if isinstance(inner, ConstantExpression):
+        return inner.value is not None and inner.value < 0
+    if _is_compact_product(inner):
+        coefficient = cast(ConstantExpression, inner.left).value
+        return coefficient is not None and coefficient < 0
+    if isinstance(inner, PowerExpression):
+        # -2^x reads as (-2)^x and -3!^x as (-3)!^x
+        return isinstance(inner.left, (ConstantExpression, FactorialExpression))
+    return True
 
 
 class ConstantExpression(MathExpression):
